@@ -44,26 +44,26 @@ Value& LSUBSTRExpression::value(Context & ctx) const
     switch (a1.type().major())
     {
     case Type::NO_TYPE:
-      return val;
+      return (val.lvalue() ? ctx.allocate(val.clone()) : val);
     case Type::INTEGER:
       if (a1.isNull())
-        return val;
+        return (val.lvalue() ? ctx.allocate(val.clone()) : val);
       b = *a1.integer();
       break;
     case Type::NUMERIC:
       if (a1.isNull())
-        return val;
+        return (val.lvalue() ? ctx.allocate(val.clone()) : val);
       b = Value::toInteger(*a1.numeric());
       break;
     default:
       throw RuntimeError(EXC_RT_FUNC_ARG_TYPE_S, KEYWORDS[oper]);
     }
     if (val.isNull())
-      return val;
+      return (val.lvalue() ? ctx.allocate(val.clone()) : val);
     int64_t a, c;
     c = val.literal()->size();
     if (c == 0)
-      return val;
+      return (val.lvalue() ? ctx.allocate(val.clone()) : val);
     a = std::max<int64_t>(std::min<int64_t>(b, c), 0L);
     if (val.lvalue())
       return ctx.allocate(Value(new Literal(val.literal()->substr(0, a))));
